@@ -13,6 +13,7 @@
 #include <csignal>
 #include <cstdio>
 #include <cstring>
+#include <fcntl.h>
 #include <fstream>
 #include <iostream>
 #include <random>
@@ -395,8 +396,32 @@ static int record(const json &plan) {
                              op == "assertVertexInRange");
             if ((kind == "multi" || kind == "weighted") && hasDup && mutator && !isAdd && op != "removeDuplicateEdges")
                 c = {{"op", "removeDuplicateEdges"}};
-            if (isAdd && c.value("f", false) && maxc >= maxCopies)
-                c["f"] = false;
+            if (kind == "multi" && hasDup && isAdd)
+                c["f"] = true; // unforced increments of a duplicated pair are outside C16
+            // C16 speaks of copies that all carry the same weight / multiplicity: a forced
+            // insertion over an existing pair of these classes repeats the stored value
+            if ((kind == "multi" || kind == "weighted") && isAdd && c.value("f", false)) {
+                int ci = c["i"].get<int>(), cj = c["j"].get<int>();
+                if (ci >= 0 && cj >= 0 && ci < n && cj < n) {
+                    json st = o->enc();
+                    int a = directed || ci <= cj ? ci : cj, b = directed || ci <= cj ? cj : ci;
+                    int cur = st["lab"][a][b].get<int>();
+                    bool present = nbr[a][b].get<int>() > 0;
+                    if (kind == "multi") {
+                        int k = present ? cur : (c.contains("k") ? c["k"].get<int>() : 1);
+                        c = {{"op", "addMultiedge"}, {"i", ci}, {"j", cj}, {"k", k}, {"f", true}};
+                    } else {
+                        int w = present ? cur : (c.contains("w") ? c["w"].get<int>() : 2);
+                        c = {{"op", "addEdge"}, {"i", ci}, {"j", cj}, {"w", w}, {"f", true}};
+                    }
+                }
+            }
+            if (isAdd && c.value("f", false) && maxc >= maxCopies) {
+                if (kind == "multi" && hasDup)
+                    c = {{"op", "removeDuplicateEdges"}};
+                else
+                    c["f"] = false;
+            }
             setCurrent(json({{"kind", "record"}, {"group", group}, {"family_index", famIdx}, {"history", hist}, {"call", c}}).dump());
             std::string out = o->apply(c);
             hist.push_back(c);
